@@ -195,3 +195,12 @@ def bench_text(net, order=None):
         lines.append(f'{k} = {name}({", ".join(ops)})')
     lines += [f'OUTPUT({o})' for o in net.outputs]
     return '\n'.join(lines) + '\n'
+
+
+def scramble_storage(c):
+    """Reverse the storage order of the gate map through public calls only (a renamed gate moves to the
+    end of the map); labels, interface and function are unchanged, the map is no longer operands-first."""
+    for l in reversed(list(c.gates)):
+        c.rename_gate(l, l + '_tmpz')
+        c.rename_gate(l + '_tmpz', l)
+    return c
